@@ -32,6 +32,16 @@ fn run_seq_phases(prop: &str, tier: &str, phases: Vec<Phase>, extra: Value) -> i
 }
 
 fn run_seq_phases_with(rep: &Reporter, phases: Vec<Phase>, extra: Value) -> i32 {
+    let (cov, machinery) = seq_collect(rep, phases, extra);
+    let code = rep.finish("model_checking", cov, seq_assumptions());
+    if let Some(e) = machinery {
+        println!("MACHINERY-FAILURE: {}", e);
+        return 2;
+    }
+    code
+}
+
+fn seq_collect(rep: &Reporter, phases: Vec<Phase>, extra: Value) -> (Value, Option<String>) {
     let mut states = 0u64;
     let mut transitions = 0u64;
     let mut runs = 0u64;
@@ -100,12 +110,7 @@ fn run_seq_phases_with(rep: &Reporter, phases: Vec<Phase>, extra: Value) -> i32 
             o.insert(k.clone(), v.clone());
         }
     }
-    let code = rep.finish("model_checking", cov, seq_assumptions());
-    if let Some(e) = machinery {
-        println!("MACHINERY-FAILURE: {}", e);
-        return 2;
-    }
-    code
+    (cov, machinery)
 }
 
 fn spec(prop: &str, alpha: Alpha, depth: usize, cfgs: Vec<Cfg>, oracles: Oracles, cap_s: u64) -> SeqSpec {
@@ -289,7 +294,40 @@ pub fn seq_worker(prop: &str, tier: &str, phase: usize) -> i32 {
 
 pub fn run_check(prop: &str, tier: &str) -> i32 {
     match prop {
-        "C01" | "C02" | "C06" | "C15" | "C16" => run_seq_phases(prop, tier, seq_phases(prop, tier), json!({})),
+        "C01" | "C02" | "C06" | "C16" => run_seq_phases(prop, tier, seq_phases(prop, tier), json!({})),
+        "C15" => {
+            // eager-worker dimension (seqx) + worker-timing dimension (schedx)
+            let rep = Reporter::new(prop, tier);
+            let (mut cov, m1) = seq_collect(&rep, seq_phases(prop, tier), json!({}));
+            let c = sched_collect(&rep, prop, tier);
+            if let Some(o) = cov.as_object_mut() {
+                let add = |o: &mut serde_json::Map<String, Value>, k: &str, n: u64| {
+                    let cur = o.get(k).and_then(|v| v.as_u64()).unwrap_or(0);
+                    o.insert(k.to_string(), json!(cur + n));
+                };
+                add(o, "states", c.stats.scheduler_states);
+                add(o, "transitions", c.stats.steps);
+                add(o, "traces_validated_against_impl", c.stats.executions);
+                if c.stats.caps_hit > 0 || c.skipped > 0 {
+                    o.insert("exhaustive".into(), json!(false));
+                }
+                o.insert("worker_timing_dimension".into(), json!({
+                    "work_items_history_x_config": c.items,
+                    "histories_skipped_by_wall_cap": c.skipped,
+                    "detail": c.stats.to_json(),
+                    "samples": c.samples,
+                    "explanation": SCHED_EXPLANATION,
+                }));
+            }
+            let mut assumptions = seq_assumptions();
+            assumptions.extend(sched_assumptions());
+            let code = rep.finish("model_checking", cov, assumptions);
+            if let Some(m) = m1.or(c.machinery) {
+                println!("MACHINERY-FAILURE: {}", m);
+                return 2;
+            }
+            code
+        }
         "C11" => {
             let rep = Reporter::new(prop, tier);
             let n = crate::names::check_names(&rep);
@@ -316,13 +354,34 @@ pub fn run_check(prop: &str, tier: &str) -> i32 {
         "C13" => {
             let rep = Reporter::new(prop, tier);
             let mut cov = crate::lockx::run(&rep, tier == "thorough");
+            let (fine, machinery) = crate::lockfine::run(&rep, tier == "thorough");
+            if let (Some(o), Some(f)) = (cov.as_object_mut(), fine.as_object()) {
+                let add = |o: &mut serde_json::Map<String, Value>, k: &str, n: u64| {
+                    let cur = o.get(k).and_then(|v| v.as_u64()).unwrap_or(0);
+                    o.insert(k.to_string(), json!(cur + n));
+                };
+                add(o, "states", f["fine_level_steps"].as_u64().unwrap_or(0));
+                add(o, "transitions", f["fine_level_steps"].as_u64().unwrap_or(0));
+                add(o, "traces_validated_against_impl", f["fine_level_executions"].as_u64().unwrap_or(0));
+                if f["fine_level_wall_cap_hit"].as_bool() == Some(true) {
+                    o.insert("exhaustive".into(), json!(false));
+                }
+                for (k, v) in f {
+                    o.insert(k.clone(), v.clone());
+                }
+            }
+            if let Some(m) = machinery {
+                println!("MACHINERY-FAILURE: {}", m);
+                let _ = rep.finish("model_checking", cov, vec![]);
+                return 2;
+            }
             if let Some(o) = cov.as_object_mut() {
-                o.insert("explanation".into(), json!("process level: 3 contender processes (each may also try a second instance in-process) driven through EVERY command sequence over {open store, open dump, drop} up to the depth bound on a directory whose newest chunk has a torn tail; reference holder variable as oracle; refused attempts must leave all chunk files byte-identical. 'states' = command sequences, 'transitions' = commands executed."));
+                o.insert("explanation".into(), json!("process level: 3 contender processes (each may also try a second instance in-process) driven through EVERY command sequence over {open store, open dump, drop} up to the depth bound on a directory whose newest chunk has a torn tail; reference holder variable as oracle; refused attempts must leave all chunk files byte-identical. Thread level (fine_level_*): 2-3 contender threads each running open;drop (store or dump) under the controlled scheduler with every libc file-system call a scheduling point, ALL interleavings (sleep-set DFS); trace oracle: ownership intervals disjoint, every chunk-file mutation inside its issuer's interval. 'states'/'transitions' = command sequences/commands + scheduler steps."));
             }
             rep.finish(
                 "model_checking",
                 cov,
-                vec!["flock semantics of the kernel trusted".into(), "3 processes; thread-level interleavings at libc-call granularity are covered by the fine level (schedx) when built".into()],
+                vec!["flock semantics of the kernel trusted".into(), "3 processes (command level), 2-3 threads (libc-call level)".into()],
             )
         }
         "C12" => {
@@ -352,6 +411,7 @@ pub fn replay(path: &str) -> i32 {
     let r = &v["replay"];
     match r["engine"].as_str().unwrap_or("") {
         "seqx" => seqx_replay(&prop, r),
+        "schedx" => schedx::replay(&prop, r),
         e => {
             eprintln!("replay for engine {:?} not supported", e);
             2
@@ -625,6 +685,38 @@ pub fn sched_specs(prop: &str, tier: &str) -> Vec<HistSpec> {
                 }
             }
         }
+        "C15" => {
+            let alpha = [Sym::A, Sym::Aup, Sym::T, Sym::Pfirst, Sym::F, Sym::W, Sym::Alow];
+            let caches: Vec<(Option<usize>, Option<usize>)> = vec![(Some(0), None), (Some(1), None), (None, Some(5))];
+            let max_len = if thorough { 5 } else { 3 };
+            for len in 1..=max_len {
+                let keep = |syms: &[Sym], _ops: &[SOp]| -> bool { has(syms, Sym::A) || has(syms, Sym::Aup) };
+                for h in schedx::histories(&alpha, len, &keep) {
+                    // the accessor check after every operation, then idle + drain + check
+                    let mut ops = vec![];
+                    for o in &h {
+                        ops.push(o.clone());
+                        ops.push(SOp::CacheCheck);
+                    }
+                    ops.push(SOp::WaitIdle);
+                    ops.push(SOp::Drain);
+                    ops.push(SOp::CacheCheck);
+                    for (ci, (items, cap)) in caches.iter().enumerate() {
+                        if len >= 3 && ci >= 1 && !thorough {
+                            continue;
+                        }
+                        for rec in [2usize, 3] {
+                            if rec == 2 && len > 2 && !thorough {
+                                continue;
+                            }
+                            let mut s = base_spec(prop, ops.clone(), Cfg::records(rec).with_cache(*items, *cap));
+                            s.o_c15 = true;
+                            out.push(s);
+                        }
+                    }
+                }
+            }
+        }
         "C08" => {
             let alpha = [Sym::A, Sym::Pfirst, Sym::F, Sym::W, Sym::Plast, Sym::Pbeyond, Sym::T, Sym::Alow, Sym::I];
             let max_len = if thorough { 5 } else { 3 };
@@ -799,8 +891,15 @@ fn c14_shard(tier: &str, shard: usize, of: usize) -> i32 {
     0
 }
 
-fn run_sched_check(prop: &str, tier: &str) -> i32 {
-    let rep = Reporter::new(prop, tier);
+struct SchedCollected {
+    stats: schedx::SchedStats,
+    samples: Vec<Value>,
+    skipped: u64,
+    items: u64,
+    machinery: Option<String>,
+}
+
+fn sched_collect(rep: &Reporter, prop: &str, tier: &str) -> SchedCollected {
     let n = std::thread::available_parallelism().map(|n| n.get()).unwrap_or(8);
     let exe = std::env::current_exe().unwrap();
     let children: Vec<std::process::Child> = (0..n)
@@ -812,18 +911,14 @@ fn run_sched_check(prop: &str, tier: &str) -> i32 {
                 .expect("spawn shard")
         })
         .collect();
-    let mut stats = schedx::SchedStats::default();
-    let mut machinery: Option<String> = None;
-    let mut samples: Vec<Value> = vec![];
-    let mut skipped = 0u64;
-    let mut items = 0u64;
-    for c in children {
-        let o = c.wait_with_output().expect("shard output");
+    let mut c = SchedCollected { stats: schedx::SchedStats::default(), samples: vec![], skipped: 0, items: 0, machinery: None };
+    for ch in children {
+        let o = ch.wait_with_output().expect("shard output");
         let text = String::from_utf8_lossy(&o.stdout);
         let line = text.lines().last().unwrap_or("");
         match serde_json::from_str::<Value>(line) {
             Ok(v) => {
-                stats.add_json(&v["stats"]);
+                c.stats.add_json(&v["stats"]);
                 for x in v["vios"].as_array().cloned().unwrap_or_default() {
                     rep.report(crate::report::Violation {
                         prop: x["prop"].as_str().unwrap_or(prop).to_string(),
@@ -833,43 +928,53 @@ fn run_sched_check(prop: &str, tier: &str) -> i32 {
                     });
                 }
                 if let Some(m) = v["machinery"].as_str() {
-                    machinery = Some(m.to_string());
+                    c.machinery = Some(m.to_string());
                 }
                 for s in v["samples"].as_array().cloned().unwrap_or_default() {
-                    if samples.len() < 5 {
-                        samples.push(s);
+                    if c.samples.len() < 5 {
+                        c.samples.push(s);
                     }
                 }
-                skipped += v["skipped_histories"].as_u64().unwrap_or(0);
-                items = v["work_items"].as_u64().unwrap_or(0);
+                c.skipped += v["skipped_histories"].as_u64().unwrap_or(0);
+                c.items = v["work_items"].as_u64().unwrap_or(0);
             }
-            Err(_) => machinery = Some(format!("shard died or produced no result (status {:?})", o.status)),
+            Err(_) => c.machinery = Some(format!("shard died or produced no result (status {:?})", o.status)),
         }
     }
+    c
+}
+
+const SCHED_EXPLANATION: &str = "stateless DFS over all schedules of the real caller thread + real FlushWorker thread under a controlled scheduler (gates at every channel/cache/ack access and every file-system call; sleep-set reduction), for every history of the listed alphabet/length; where enabled, fault variants at worker write/fdatasync (deviation-bounded) and, at every scheduler state, every post-crash image of the crash model recovered by the real RaftLog::open. 'states' = scheduler states visited, 'transitions' = scheduler steps executed, 'traces_validated_against_impl' = complete executions of the real code.";
+
+fn sched_assumptions() -> Vec<String> {
+    vec![
+        "scheduling points: verif-hooks gates + interposed libc file-system calls; sequential consistency; no unsafe in the crate (checked by selftest)".into(),
+        "crash model: process crash keeps completed calls (+ any prefix of a write in flight); power loss cuts each file anywhere at or above its last successfully synced length or zero-fills it from a record boundary; create/unlink/truncate durable on return".into(),
+        "types fixed to VT; histories bounded in length over a state-relative alphabet".into(),
+    ]
+}
+
+fn run_sched_check(prop: &str, tier: &str) -> i32 {
+    let rep = Reporter::new(prop, tier);
+    let c = sched_collect(&rep, prop, tier);
+    let mut samples = c.samples.clone();
     if samples.is_empty() {
         samples.push(json!("(no history explored)"));
     }
+    let stats = &c.stats;
     let cov = json!({
         "states": (stats.distinct_states.max(stats.scheduler_states)).max(1),
         "transitions": stats.steps.max(1),
         "traces_validated_against_impl": stats.executions,
         "samples": samples,
-        "exhaustive": stats.caps_hit == 0 && skipped == 0 && stats.image_cap_hit == 0,
-        "work_items_history_x_config": items,
-        "histories_skipped_by_wall_cap": skipped,
+        "exhaustive": stats.caps_hit == 0 && c.skipped == 0 && stats.image_cap_hit == 0,
+        "work_items_history_x_config": c.items,
+        "histories_skipped_by_wall_cap": c.skipped,
         "detail": stats.to_json(),
-        "explanation": "stateless DFS over all schedules of the real caller thread + real FlushWorker thread under a controlled scheduler (gates at every channel/cache/ack/done access and every file-system call; sleep-set reduction), for every history of the listed alphabet/length; where enabled, fault variants at worker write/fdatasync (deviation-bounded) and, at every scheduler state, every post-crash image of the crash model recovered by the real RaftLog::open. 'states' = scheduler states visited, 'transitions' = scheduler steps executed, 'traces_validated_against_impl' = complete executions of the real code.",
+        "explanation": SCHED_EXPLANATION,
     });
-    let code = rep.finish(
-        "model_checking",
-        cov,
-        vec![
-            "scheduling points: verif-hooks gates + interposed libc file-system calls; sequential consistency; no unsafe in the crate (checked by selftest)".into(),
-            "crash model: process crash keeps completed calls (+ any prefix of a write in flight); power loss cuts each file anywhere at or above its last successfully synced length or zero-fills it from a record boundary; create/unlink/truncate durable on return".into(),
-            "types fixed to VT; histories bounded in length over a state-relative alphabet".into(),
-        ],
-    );
-    if let Some(m) = machinery {
+    let code = rep.finish("model_checking", cov, sched_assumptions());
+    if let Some(m) = c.machinery {
         println!("MACHINERY-FAILURE: {}", m);
         return 2;
     }
